@@ -341,7 +341,7 @@ class FitEngine(Engine):
                           "delegates, raises RuntimeError, or returns another legal optimum"]
 
     def budget(self, tier):
-        return 220 if tier == "quick" else 30000
+        return 220 if tier == "quick" else 6000
 
     def timeout(self, tier):
         return 300
